@@ -1591,6 +1591,79 @@ def _tidy_ifs(fnode):
             n.body, n.orelse = n.orelse, []
 
 
+def _expanded_defs(fnode):
+    """naming-independent signature of single-definition locals (see devtools/gen_vocab.py)"""
+    stores = {}
+    for n in ast.walk(fnode):
+        if isinstance(n, ast.Name) and isinstance(n.ctx, (ast.Store, ast.Del)):
+            stores[n.id] = stores.get(n.id, 0) + 1
+    defs = {}
+    for n in ast.walk(fnode):
+        if isinstance(n, ast.Assign) and len(n.targets) == 1:
+            t = n.targets[0]
+            if isinstance(t, ast.Name) and stores.get(t.id) == 1:
+                defs[t.id] = n.value
+            elif isinstance(t, (ast.Tuple, ast.List)) and isinstance(n.value, (ast.Tuple, ast.List)) and len(t.elts) == len(n.value.elts):
+                for a, b in zip(t.elts, n.value.elts):
+                    if isinstance(a, ast.Name) and stores.get(a.id) == 1:
+                        defs[a.id] = b
+
+    def expand(e, depth):
+        if depth <= 0:
+            return e
+        return _subst_names_fn(clone(e), lambda name: expand(clone(defs[name]), depth - 1) if name in defs else None)
+    out = {}
+    for k, v in defs.items():
+        try:
+            out[k] = ast.unparse(expand(v, 4))
+        except RecursionError:
+            pass
+    return out
+
+
+def _subst_names_fn(node, fn):
+    class _S(ast.NodeTransformer):
+        def visit_Name(self, n):
+            if isinstance(n.ctx, ast.Load):
+                r = fn(n.id)
+                if r is not None:
+                    return r
+            return n
+    return _S().visit(node)
+
+
+def _restore_names_expanded(fnode, known_locals, ref_expanded, cnt):
+    """second chance for renamed locals: compare the definitions with all
+    single-definition locals expanded (independent of how the helpers are named)"""
+    if not ref_expanded:
+        return
+    for _ in range(6):
+        present = _names(fnode) | {a.arg for a in fnode.args.args + fnode.args.kwonlyargs}
+        stores = {n.id for n in ast.walk(fnode) if isinstance(n, ast.Name) and isinstance(n.ctx, ast.Store)}
+        unknown = stores - set(known_locals)
+        missing = [k for k in known_locals if k not in present and k in ref_expanded]
+        if not unknown or not missing:
+            return
+        cur = _expanded_defs(fnode)
+        by_text = {}
+        for u in unknown:
+            if u in cur:
+                by_text.setdefault(cur[u], []).append(u)
+        ref_by_text = {}
+        for k in missing:
+            ref_by_text.setdefault(ref_expanded[k], []).append(k)
+        done = False
+        for text, us in by_text.items():
+            ks = ref_by_text.get(text, [])
+            if len(us) == 1 and len(ks) == 1:
+                _rename(fnode, {us[0]: ks[0]})
+                cnt.stats["names_restored"] = cnt.stats.get("names_restored", 0) + 1
+                done = True
+                break
+        if not done:
+            return
+
+
 def _drop_self_assigns(fnode):
     for block in _all_blocks(fnode):
         for s_ in list(block):
@@ -1838,6 +1911,7 @@ def _alias_collapse(fnode, unknown, cnt):
     return False
 
 
+REF_EXPANDED = {}    # id(function node) -> expanded reference definitions (set by normalize_module)
 TUPLE_SIZES = {}     # function name -> size of the tuple it returns (package wide)
 
 
@@ -1878,6 +1952,7 @@ def _normalize_locals(fnode, known_locals, self_name, cnt, ref_defs=None):
     if ref_defs:
         before = cnt.stats.get("names_restored", 0)
         _restore_names(fnode, known_locals, ref_defs, cnt)
+        _restore_names_expanded(fnode, known_locals, REF_EXPANDED.get(id(fnode)), cnt)
         if cnt.stats.get("names_restored", 0) != before:
             _drop_self_assigns(fnode)
     for _ in range(300):
@@ -2517,6 +2592,7 @@ def normalize_module(tree, modname):
         if key not in known_funcs:
             continue
         self_name = f.args.args[0].arg if (cname is not None and f.args.args) else None
+        REF_EXPANDED[id(f)] = v.get("expanded_defs", {}).get(key)
         if key in v.get("attr_stored", {}):
             _record_idiom(f, set(v["attr_stored"][key]), cnt)
         try:
